@@ -10,11 +10,11 @@ from vlib.refmodel import LayoutMismatch, RefModel, aux_to_flat, main_to_flat, p
 ID = "C10"
 LEVEL = "exploration"
 RULE = (
-    "Hypothesis-generated specs x batch size 1..8 x pairwise distinct parameter rows and datasets x "
+    "Hypothesis-generated specs x batch size 1..8 x pairwise distinct parameter rows x datasets (independent, or related to row 0: identical, counts permuted over the bins, events moved between two bins) x "
     "interpolation settings x backend. Oracles: row i of the batched model == unbatched model on row i "
     "(expected_data, logpdf; differential) and == reference model; output shapes (N, ndata), (N,); sample "
     "shape shape+(N, ndata); non-interference (replacing row j leaves all other rows bit-identical). "
-    "Non-trivial: N>=2 with pairwise distinct rows and (a bin-wise modifier or >=2 channels); distinct by "
+    "Non-trivial: N>=2 with pairwise distinct parameter rows, >=2 different datasets and (a bin-wise modifier or >=2 channels); distinct by "
     "(shape signature, N, settings, backend)."
 )
 ASSUMPTIONS = [
@@ -48,6 +48,30 @@ def strategy_(draw, shard):
         exp = ref.expected_main(pars)
         rows.append({"pars": pars, "main": draw(gen_spec.main_data(ref, exp)),
                      "aux": draw(gen_spec.aux_data(ref))})
+    # related datasets: some rows reuse row 0's observations - identical, with its counts permuted over the bins, or
+    # with events moved between two bins (same totals, same auxiliary data, different log-density)
+    import copy as _copy
+
+    for r in range(1, n):
+        k = draw(st.integers(0, 6))
+        if k > 2:
+            continue
+        rows[r]["aux"] = _copy.deepcopy(rows[0]["aux"])
+        flat = [v for c in ref.channels for v in rows[0]["main"][c]]
+        if k == 1 and len(flat) > 1:
+            flat = list(draw(st.permutations(flat)))
+        elif k == 2 and len(flat) > 1:
+            i = draw(st.integers(0, len(flat) - 1))
+            j = (i + draw(st.integers(1, len(flat) - 1))) % len(flat)
+            d = draw(st.sampled_from([1.0, 2.0, 0.5]))
+            if flat[i] >= d:
+                flat[i], flat[j] = flat[i] - d, flat[j] + d
+        main, pos = {}, 0
+        for c in ref.channels:
+            nb = len(rows[0]["main"][c])
+            main[c] = flat[pos:pos + nb]
+            pos += nb
+        rows[r]["main"] = main
     hs = draw(st.sampled_from(["code4p", "code0", "code2"]))
     ns = draw(st.sampled_from(["code4", "code1"]))
     return {"spec": spec, "rows": rows, "histosys": hs, "normsys": ns, "backend": shard["backend"],
@@ -136,7 +160,7 @@ def run_case(case, ctx):
                 ctx.fail("C10/batched_sample_shape", got=list(sb.shape), want=list(shp + (N, ndata)))
             if tuple(su.shape) != shp + (ndata,):
                 ctx.fail("C10/unbatched_sample_shape", got=list(su.shape), want=list(shp + (ndata,)))
-        distinct = len({tuple(p) for p in P}) == N and len({tuple(d) for d in D}) == N
+        distinct = len({tuple(p) for p in P}) == N and len({tuple(d) for d in D}) >= min(N, 2)
         binwise = any(p.n > 1 for p in ref.params.values())
         nch = len(spec["channels"])
         ctx.label(f"N={N}", f"backend={case['backend']}", f"hs={case['histosys']}", f"ns={case['normsys']}")
